@@ -34,7 +34,7 @@ Item(k, sz) ==
     [] k = 9 -> Ix_Sl(-2, Ix_None, Ix_None)
     [] k = 10 -> Ix_Sl(0, 10, Ix_None)
     [] k = 11 -> Ix_Ten([shape |-> <<2>>, data |-> <<sz - 1, 0>>])
-    [] k = 12 -> Ix_Ten([shape |-> <<2>>, data |-> <<-1, 1 % sz>>])
+    [] k = 12 -> Ix_Ten([shape |-> <<2>>, data |-> <<-1, -sz>>])         \* both ends of the negative range
     [] k = 13 -> Ix_List([shape |-> <<2>>, data |-> <<0, sz - 1>>])
     [] k = 14 -> Ix_T0(-1)
     [] k = 15 -> Ix_Ten([shape |-> <<2, 1>>, data |-> <<0, sz - 1>>])
